@@ -296,9 +296,17 @@ def type_or_id_filter(draw, objs):
     return {"prop": which, "op": op, "value": value}
 
 
+def _ts_excluded(path, objs, no_ts):
+    """no_ts=True: no timestamp-valued paths at all; no_ts="dict-kept": none where a dictionary-kept object carries the path
+    (the recorded open finding C12 dict-kept-timestamp-compared-as-text lives there; C12 itself explores that region)."""
+    if not no_ts or PATHS[path] not in ("ts", "ts2"):
+        return False
+    return no_ts is True or any(is_dict_kept(o) and path in o for o in objs)
+
+
 @st.composite
 def property_filter(draw, objs, dt_ok=True, no_ts=False):
-    all_paths = [p for p in sorted(PATHS) if not (no_ts and PATHS[p] in ("ts", "ts2"))]
+    all_paths = [p for p in sorted(PATHS) if not _ts_excluded(p, objs, no_ts)]
     present_paths = [p for p in all_paths if present_values(objs, p)]
     path = draw(st.sampled_from(present_paths)) if present_paths and draw(st.integers(0, 9)) else draw(st.sampled_from(all_paths))
     kind = PATHS[path]
@@ -338,6 +346,23 @@ def _clamp(t):
 
 
 @st.composite
+def aimed_ts_filter(draw, objs, path, v, dt_ok=True):
+    """A timestamp filter that holds for the stored value v of `path`, the filter value respelled (Z / .0Z / .000Z / .000000Z ...)."""
+    t = M.instant(v)
+    op = draw(st.sampled_from(["=", "=", "<=", ">=", "<", ">", "!=", "in"]))
+    delta = draw(st.sampled_from([1, 250000, 500000, 10 ** 6]))
+    t2 = _clamp({"<": t + delta, ">": t - delta, "!=": t + delta}.get(op, t))
+    if t2 == t and op in ("<", ">", "!="):
+        op = "="
+    text = respell(t2, draw(st.integers(0, 3)))
+    if op == "in":
+        return {"prop": path, "op": op, "value": [text] + [respell(_clamp(t + 7), 0)] * draw(st.integers(0, 1))}
+    if dt_ok and draw(st.booleans()) and not any(is_dict_kept(o) and path in o for o in objs):
+        return {"prop": path, "op": op, "value": {"$dt": text}}
+    return {"prop": path, "op": op, "value": text}
+
+
+@st.composite
 def aimed_filter(draw, objs, target, type_id, dt_ok=True, no_ts=False):
     """A filter that holds for `target` (one stored object): keeps conjunctions from being empty all the time."""
     if type_id:
@@ -357,7 +382,7 @@ def aimed_filter(draw, objs, target, type_id, dt_ok=True, no_ts=False):
         else:
             value = v
         return {"prop": which, "op": op, "value": value}
-    paths = [p for p in sorted(PATHS) if not (no_ts and PATHS[p] in ("ts", "ts2")) and M._final_values(target, p.split("."))]
+    paths = [p for p in sorted(PATHS) if not _ts_excluded(p, objs, no_ts) and M._final_values(target, p.split("."))]
     if not paths:
         return draw(aimed_filter(objs, target, True))
     path = draw(st.sampled_from(paths))
@@ -365,18 +390,7 @@ def aimed_filter(draw, objs, target, type_id, dt_ok=True, no_ts=False):
     v = draw(st.sampled_from(M._final_values(target, path.split("."))))
     others = [x for x in present_values(objs, path) if x != v and type(x) is type(v)]
     if kind in ("ts", "ts2"):
-        t = M.instant(v)
-        op = draw(st.sampled_from(["=", "<=", ">=", "<", ">", "!=", "in"]))
-        delta = draw(st.sampled_from([1, 250000, 500000, 10 ** 6]))
-        t2 = _clamp({"<": t + delta, ">": t - delta, "!=": t + delta}.get(op, t))
-        if t2 == t and op in ("<", ">", "!="):
-            op = "="
-        text = respell(t2, draw(st.integers(0, 3)))
-        if op == "in":
-            return {"prop": path, "op": op, "value": [text] + [respell(_clamp(t + 7), 0)] * draw(st.integers(0, 1))}
-        if dt_ok and draw(st.booleans()) and not any(is_dict_kept(o) and path in o for o in objs):
-            return {"prop": path, "op": op, "value": {"$dt": text}}
-        return {"prop": path, "op": op, "value": text}
+        return draw(aimed_ts_filter(objs, path, v, dt_ok))
     if kind == "bool":
         op = draw(st.sampled_from(["=", "!=", "in"]))
         return {"prop": path, "op": op, "value": v if op == "=" else (not v) if op == "!=" else [v]}
